@@ -2,7 +2,7 @@
    This file holds ONLY statements (with their specs written out here) closed by [exact lemma]
    and [Print Assumptions].  Model: Model/Helpers.v (helpers.py 151-262, airplane.py 148-159). *)
 From Coq Require Import Reals List.
-From MuxV Require Import Base.Num Base.Vec3 Base.RInst Model.Helpers Proofs.HelpersP.
+From MuxV Require Import Base.Num Base.Vec3 Base.RInst Model.Helpers Proofs.HelpersP Model.Flow Proofs.FlowP.
 Local Open Scope R_scope.
 
 (* |q|^2 written out independently of the model *)
@@ -120,3 +120,16 @@ Section Rigid.
 End Rigid.
 Print Assumptions C03_influence_rotates.
 Print Assumptions C03_rigid_motion_invariance.
+
+(* the inputs of the residual themselves turn with the scene: for the aircraft re-oriented by a unit quaternion Q (orientation
+   quat_mult Q q; Earth-fixed velocity and wind turned by Q) the air velocity at every point of the aircraft and the directions of
+   the trailing vortices - free or constrained to the body x-y plane - are the turned ones; with C03_influence_rotates and
+   C03_rigid_motion_invariance this covers scene.py's _calc_invariant_flow_properties *)
+Theorem C03_flow_rotates : forall (Q : quat R), qn2 Q = 1 -> forall q v wind w r mp c vj,
+  v_inf_and_rot (quat_mult Q q) (quat_inv_trans Q v) (quat_inv_trans Q wind) w r = quat_inv_trans Q (v_inf_and_rot q v wind w r) /\
+  joint_v_inf mp (quat_mult Q q) (quat_inv_trans Q v) (quat_inv_trans Q wind) w r = quat_inv_trans Q (joint_v_inf mp q v wind w r) /\
+  trailing_dir c (quat_mult Q q) (quat_inv_trans Q vj) = quat_inv_trans Q (trailing_dir c q vj).
+Proof.
+  intros Q HQ q v wind w r mp c vj. split; [exact (v_inf_and_rot_rigid Q HQ q v wind w r)|]. split; [exact (joint_v_inf_rigid Q HQ mp q v wind w r) | exact (trailing_dir_rigid Q HQ c q vj)].
+Qed.
+Print Assumptions C03_flow_rotates.
